@@ -74,7 +74,25 @@ import os as _os
 TRACE = bool(_os.environ.get("PYVC_TRACE"))
 
 
+_HQ_PROBE = None
+
+
 def _has_quant(e):
+    """does the formula contain a quantifier / lambda?  (z3's own probe: C side, no python traversal)"""
+    global _HQ_PROBE
+    try:
+        if z3.is_bool(e):
+            if _HQ_PROBE is None:
+                _HQ_PROBE = z3.Probe("has-quantifiers")
+            g = z3.Goal()
+            g.add(e)
+            return _HQ_PROBE(g) != 0
+    except z3.Z3Exception:
+        pass
+    return _has_quant_py(e)
+
+
+def _has_quant_py(e):
     seen = set()
     stack = [e]
     while stack:
@@ -168,6 +186,7 @@ class Path:
         self.qf = z3.Solver()          # quantifier-free part of the path condition (feasibility pre-check)
         self.qf.set("timeout", 2000)
         self.pc = []
+        self.pc_has_quant = False
         self.counter = 0
         self.solver_s = 0.0
         self.ended = None
@@ -192,6 +211,8 @@ class Path:
         self.pc.append(phi)
         if not _has_quant(phi):
             self.qf.add(phi)
+        else:
+            self.pc_has_quant = True
 
     def _check(self, extra):
         # identical (pc, goal) pairs recur because every path re-executes the common prefix; z3 terms are
@@ -253,6 +274,8 @@ class Path:
                 self.qf.pop()
                 if r == z3.unsat:
                     return False
+                if r == z3.sat and not self.pc_has_quant:
+                    return True      # the whole path condition is quantifier free: the incremental answer is final
             s = z3.Solver()
             s.set("timeout", self.ver.feas_timeout_ms)
             for f in self.pc:
